@@ -7,7 +7,7 @@ import sys
 import esrv
 
 PROPS_V = "Props/C03.v"
-TRANSLATORS = ["uniq"]
+TRANSLATORS = ["uniq", "cancel"]
 IMPL = os.path.join(esrv.VERIF, "harness", "corr", "c03_impl.py")
 
 SHIPPED = ["core_maths", "ext_maths", "osc_maths", "base10_maths", "base_e_maths", "keep_duplicates"]
@@ -135,6 +135,16 @@ Eval vm_compute in ("%(tag)s"%%string, check_main (main cp %(mp)d%%nat E extra_o
 # ------------------------------------------------------------------ runs of the real generation
 
 # replay of the known way to obtain a duplicated unique entry (see search): extra trees whose own string is already a unique
+# small bases in which rare bookkeeping situations already occur at complexity 5 (seconds to generate):
+#  - a chain that is exactly three equal self-inverse steps (only one may be cancelled),
+#  - two parameters that both become absolute values and are then subtracted (|a0| - |a1| is not an absolute value),
+#  - empty libraries
+DIRECTED = {
+    "verif_tripleflip": [["x", "a"], ["exp", "log_abs"], ["-", "+"]],
+    "verif_sqdiff": [["x", "a"], ["square"], ["-", "*"]],
+    # no unary operator: the libraries at even complexity are empty (check_results crashed on them before /repo d9ed802)
+    "verif_nounary": [["x", "a"], [], ["-", "/"]],
+}
 DUPUNIQ = ("verif_dupuniq", [["x", "a"], ["log_abs", "inv"], ["+", "-", "*"]], [6])
 
 
@@ -143,6 +153,7 @@ def run_list(ctx):
     ns = list(range(1, (4 if ctx.quick else 5) + 1))
     runs = [(b, None, ns) for b in SHIPPED]
     runs += [(name, basis, ns) for name, basis in SUBBASES.items()]
+    runs += [(name, basis, list(range(1, 6))) for name, basis in DIRECTED.items()]
     if not ctx.quick:
         runs.append(DUPUNIQ)
         rng = esrv.rng(ctx.seed, "C03/random-subbases")
@@ -319,6 +330,16 @@ def correspondence(ctx):
             rep.fail("broken-correspondence", "real duplicate_checker.main failed under the recording wrappers for %s" % runname,
                      "C03:trace-driver:" + runname, input={"run": runname, "basis": basis, "n": nmax}, observed=err,
                      theorem="oracle-trace replay")
+            # is it the wrappers or the code?  the same run without any wrapper, under another run name
+            plain = "verif_plain_" + runname.replace("verif_", "") if basis is not None else None
+            if plain:
+                rc2, out2, err2 = esrv.run_py(ctx.scratch, os.path.join(esrv.VERIF, "harness", "corr", "gen_run.py"), [plain] + [str(n) for n in nmax],
+                                              extra={"ESR_VERIF_BASIS": json.dumps(basis)}, timeout=3000)
+                if rc2 != 0:
+                    last = [l for l in err2.strip().splitlines() if l.strip()][-1:] or ["?"]
+                    rep.fail("failing-input", "function generation (duplicate_checker.main) raises for basis %r, complexities %r: %s" % (basis, nmax, last[0][:200]),
+                             "C03:generation-crash:" + runname, input={"basis": basis, "complexities": nmax}, observed=err2[-1200:],
+                             expected="a library (possibly empty) for every basis and complexity")
             continue
         for rec in recs:
             rec["basis"] = basis
@@ -656,7 +677,9 @@ ASSUMPTIONS = [
     "for all theta when c has no nan, a chain with nan comes with strictly fewer parameters, and no step increases the parameter count; "
     "equalities are everywhere-equalities of an abstract denotation (partiality, e.g. a0 = 0 under {a0: 1/a0}, is idealised away; the "
     "numeric search compares at generic points only)",
-    "simplify_inv_subs preserves the composition and the presence of nan (hypothesis cancel_ok; C17's subject)",
+    "simplify_inv_subs preserves the composition and the presence of nan: hypothesis cancel_ok of C03_chain_sound, DISCHARGED for the function as "
+    "regenerated from simplifier.py (C03_cancel_contract_of_code, C03_chain_sound_code_cancel) under: members of all_dup denote involutions and nan is "
+    "not in all_dup (C17_all_dup_spec / C17_all_dup_involutive)",
     "np.random.shuffle leaves a permutation of 0..U-1 (hypothesis; the recorded array is checked by the model run returning Some)",
     "an extra tree's own string denotes the same function as its original's string with no more parameters (hypothesis; C11's subject; "
     "validated numerically per library and reported)",
